@@ -31,7 +31,7 @@ import (
 
 type lintTok struct {
 	K int    `json:"k"`
-	V string `json:"v"` // hex
+	V string `json:"v"`           // hex
 	Q int    `json:"q,omitempty"` // quote rune of quoted strings / identifiers
 }
 
@@ -268,7 +268,7 @@ func init() {
 	// lintlsp: stdin {"t": hex, "tab": n, "spaces": bool, "final": bool} per line -> the text after the
 	// language server's textDocument/formatting edit has been applied (one server, one document per case)
 	subcmds["lintlsp"] = func(args []string) int {
-		var cases []struct {
+		var allCases []struct {
 			T      string `json:"t"`
 			Tab    int    `json:"tab"`
 			Spaces bool   `json:"spaces"`
@@ -284,105 +284,115 @@ func init() {
 				Final  bool   `json:"final"`
 			}
 			if json.Unmarshal(sc.Bytes(), &c) == nil {
-				cases = append(cases, c)
+				allCases = append(allCases, c)
 			}
 		}
-		var in bytes.Buffer
-		frame := func(v interface{}) {
-			b, _ := json.Marshal(v)
-			fmt.Fprintf(&in, "Content-Length: %d\r\n\r\n%s", len(b), b)
-		}
-		frame(map[string]interface{}{"jsonrpc": "2.0", "id": 0, "method": "initialize", "params": map[string]interface{}{"capabilities": map[string]interface{}{}}})
-		frame(map[string]interface{}{"jsonrpc": "2.0", "method": "initialized", "params": map[string]interface{}{}})
-		for i, c := range cases {
-			raw, _ := hex.DecodeString(c.T)
-			uri := "file:///case" + strconv.Itoa(i) + ".sql"
-			frame(map[string]interface{}{"jsonrpc": "2.0", "method": "textDocument/didOpen", "params": map[string]interface{}{
-				"textDocument": map[string]interface{}{"uri": uri, "languageId": "sql", "version": 1, "text": string(raw)}}})
-			frame(map[string]interface{}{"jsonrpc": "2.0", "id": i + 1, "method": "textDocument/formatting", "params": map[string]interface{}{
-				"textDocument": map[string]interface{}{"uri": uri},
-				"options":      map[string]interface{}{"tabSize": c.Tab, "insertSpaces": c.Spaces, "insertFinalNewline": c.Final}}})
-			frame(map[string]interface{}{"jsonrpc": "2.0", "method": "textDocument/didClose", "params": map[string]interface{}{
-				"textDocument": map[string]interface{}{"uri": uri}}})
-		}
-		frame(map[string]interface{}{"jsonrpc": "2.0", "id": len(cases) + 1, "method": "shutdown"})
-		frame(map[string]interface{}{"jsonrpc": "2.0", "method": "exit"})
-		var outb bytes.Buffer
-		pn := guarded(func() {
-			srv := lsp.NewServer(&in, &outb, nil)
-			_ = srv.Run()
-		})
-		// parse responses
-		type resp struct {
-			ID     *int            `json:"id"`
-			Result json.RawMessage `json:"result"`
-			Error  json.RawMessage `json:"error"`
-		}
-		byID := map[int]resp{}
-		rd := bufio.NewReader(&outb)
-		for {
-			n := -1
-			for {
-				line, err := rd.ReadString('\n')
-				if err != nil {
-					goto done
+		// the server throttles to RateLimitRequests per second: one server per 30 documents
+		for base := 0; base < len(allCases); base += 30 {
+			end := base + 30
+			if end > len(allCases) {
+				end = len(allCases)
+			}
+			cases := allCases[base:end]
+			func() {
+				var in bytes.Buffer
+				frame := func(v interface{}) {
+					b, _ := json.Marshal(v)
+					fmt.Fprintf(&in, "Content-Length: %d\r\n\r\n%s", len(b), b)
 				}
-				line = strings.TrimSpace(line)
-				if line == "" {
-					break
+				frame(map[string]interface{}{"jsonrpc": "2.0", "id": 0, "method": "initialize", "params": map[string]interface{}{"capabilities": map[string]interface{}{}}})
+				frame(map[string]interface{}{"jsonrpc": "2.0", "method": "initialized", "params": map[string]interface{}{}})
+				for i, c := range cases {
+					raw, _ := hex.DecodeString(c.T)
+					uri := "file:///case" + strconv.Itoa(i) + ".sql"
+					frame(map[string]interface{}{"jsonrpc": "2.0", "method": "textDocument/didOpen", "params": map[string]interface{}{
+						"textDocument": map[string]interface{}{"uri": uri, "languageId": "sql", "version": 1, "text": string(raw)}}})
+					frame(map[string]interface{}{"jsonrpc": "2.0", "id": i + 1, "method": "textDocument/formatting", "params": map[string]interface{}{
+						"textDocument": map[string]interface{}{"uri": uri},
+						"options":      map[string]interface{}{"tabSize": c.Tab, "insertSpaces": c.Spaces, "insertFinalNewline": c.Final}}})
+					frame(map[string]interface{}{"jsonrpc": "2.0", "method": "textDocument/didClose", "params": map[string]interface{}{
+						"textDocument": map[string]interface{}{"uri": uri}}})
 				}
-				if strings.HasPrefix(strings.ToLower(line), "content-length:") {
-					n, _ = strconv.Atoi(strings.TrimSpace(line[len("content-length:"):]))
+				frame(map[string]interface{}{"jsonrpc": "2.0", "id": len(cases) + 1, "method": "shutdown"})
+				frame(map[string]interface{}{"jsonrpc": "2.0", "method": "exit"})
+				var outb bytes.Buffer
+				pn := guarded(func() {
+					srv := lsp.NewServer(&in, &outb, nil)
+					_ = srv.Run()
+				})
+				// parse responses
+				type resp struct {
+					ID     *int            `json:"id"`
+					Result json.RawMessage `json:"result"`
+					Error  json.RawMessage `json:"error"`
 				}
-			}
-			if n < 0 {
-				break
-			}
-			body := make([]byte, n)
-			if _, err := io.ReadFull(rd, body); err != nil {
-				break
-			}
-			var r resp
-			if json.Unmarshal(body, &r) == nil && r.ID != nil {
-				byID[*r.ID] = r
-			}
-		}
-	done:
-		for i, c := range cases {
-			r, ok := byID[i+1]
-			o := map[string]interface{}{"i": i}
-			if !ok {
-				o["missing"] = true
-				if pn != "" {
-					o["panic"] = pn
+				byID := map[int]resp{}
+				rd := bufio.NewReader(&outb)
+			readloop:
+				for {
+					n := -1
+					for {
+						line, err := rd.ReadString('\n')
+						if err != nil {
+							break readloop
+						}
+						line = strings.TrimSpace(line)
+						if line == "" {
+							break
+						}
+						if strings.HasPrefix(strings.ToLower(line), "content-length:") {
+							n, _ = strconv.Atoi(strings.TrimSpace(line[len("content-length:"):]))
+						}
+					}
+					if n < 0 {
+						break
+					}
+					body := make([]byte, n)
+					if _, err := io.ReadFull(rd, body); err != nil {
+						break
+					}
+					var r resp
+					if json.Unmarshal(body, &r) == nil && r.ID != nil {
+						byID[*r.ID] = r
+					}
 				}
-				emitJSON(o)
-				continue
-			}
-			if len(r.Error) > 0 && string(r.Error) != "null" {
-				o["error"] = string(r.Error)
-				emitJSON(o)
-				continue
-			}
-			var edits []struct {
-				Range struct {
-					Start struct{ Line, Character int }
-					End   struct{ Line, Character int }
+				for i, c := range cases {
+					r, ok := byID[i+1]
+					o := map[string]interface{}{"i": base + i}
+					if !ok {
+						o["missing"] = true
+						if pn != "" {
+							o["panic"] = pn
+						}
+						emitJSON(o)
+						continue
+					}
+					if len(r.Error) > 0 && string(r.Error) != "null" {
+						o["error"] = string(r.Error)
+						emitJSON(o)
+						continue
+					}
+					var edits []struct {
+						Range struct {
+							Start struct{ Line, Character int }
+							End   struct{ Line, Character int }
+						}
+						NewText string
+					}
+					_ = json.Unmarshal(r.Result, &edits)
+					raw, _ := hex.DecodeString(c.T)
+					if len(edits) == 0 {
+						o["unchanged"] = true
+						o["out"] = hex.EncodeToString(raw)
+					} else {
+						// the handler always answers with one edit that replaces the whole document
+						o["out"] = hex.EncodeToString([]byte(edits[0].NewText))
+						o["range"] = [4]int{edits[0].Range.Start.Line, edits[0].Range.Start.Character, edits[0].Range.End.Line, edits[0].Range.End.Character}
+						o["nedits"] = len(edits)
+					}
+					emitJSON(o)
 				}
-				NewText string
-			}
-			_ = json.Unmarshal(r.Result, &edits)
-			raw, _ := hex.DecodeString(c.T)
-			if len(edits) == 0 {
-				o["unchanged"] = true
-				o["out"] = hex.EncodeToString(raw)
-			} else {
-				// the handler always answers with one edit that replaces the whole document
-				o["out"] = hex.EncodeToString([]byte(edits[0].NewText))
-				o["range"] = [4]int{edits[0].Range.Start.Line, edits[0].Range.Start.Character, edits[0].Range.End.Line, edits[0].Range.End.Character}
-				o["nedits"] = len(edits)
-			}
-			emitJSON(o)
+			}()
 		}
 		return 0
 	}
